@@ -114,8 +114,13 @@ def run_case(case):
         given = [("MEMBER", [ps, "b"])]
     elif pshape == 5:
         given = [("DELEGATED-TO", ["b", ps])]
-    else:
+    elif pshape == 6:
         given = [("X-L", ["b", ps, "c"]), ("SENT-BY", "b")]
+    # empty items at the ends of a list (an empty field after the last / before the first comma)
+    elif pshape == 7:
+        given = [("X-L", [ps, ""])]
+    else:
+        given = [("MEMBER", ["", ps, ""]), ("X-Q", "a b")]
     fails = []
     outcomes = []
     P = Parameters()
@@ -303,7 +308,7 @@ def run(ctx):
 
     def gen_lists():
         for ps in allk:
-            for pshape in (4, 5, 6):
+            for pshape in (4, 5, 6, 7, 8):
                 for name, v in (("X-A", "v"), ("ATTENDEE", "a,b;c")):
                     yield ("c", name, pshape, ps, "vText", v)
 
